@@ -793,6 +793,7 @@ func (eng *Engine) script(o *Obligation) string {
 	b.WriteString(eng.sorts.Prelude(body + tail))
 	b.WriteString(body)
 	b.WriteString(tail)
+	b.WriteString(sumAxioms(body + tail))
 	b.WriteString("(check-sat)\n")
 	return b.String()
 }
